@@ -114,23 +114,13 @@ impl Trait {
                 ..
             }) = supertrait
             {
-                let mut seg_iter = segments.iter();
-                if let Some(syn::PathSegment { ident, .. }) = seg_iter.next() {
-                    if *ident != "std" {
-                        continue;
-                    }
-                }
-                if let Some(syn::PathSegment { ident, .. }) = seg_iter.next() {
-                    if *ident != "marker" {
-                        continue;
-                    }
-                }
-                if let Some(syn::PathSegment { ident, .. }) = seg_iter.next() {
-                    if *ident == "Send" {
-                        is_send = true;
-                    } else if *ident == "Sync" {
-                        is_sync = true;
-                    }
+                // `Send`, `std::marker::Send` and `core::marker::Send` all name the same trait
+                let idents: Vec<String> = segments.iter().map(|s| s.ident.to_string()).collect();
+                let idents: Vec<&str> = idents.iter().map(String::as_str).collect();
+                match idents.as_slice() {
+                    ["Send"] | ["std" | "core", "marker", "Send"] => is_send = true,
+                    ["Sync"] | ["std" | "core", "marker", "Sync"] => is_sync = true,
+                    _ => {}
                 }
             }
         }
